@@ -12,7 +12,7 @@ TECHNIQUE = "explicit-state breadth-first search over histories of aggregate com
 RULE = (
     "(a1) real client: every ordered list of distinct levels from {postal_code, county_fips, county_classification} that contains the contest level (11) x "
     "alpha lists {[0.9],[0.7,0.9],[0.9,0.7]} x hard/soft threshold x correlation on/off x 4 call/stop assignments; after each run the summary with weights "
-    "None / explicit / wrong size. Invariant: equal to the summary after the history [contest level] alone, never raises, wrong size raises the dedicated "
+    "None / explicit / every wrong size from empty to one entry too many. Invariant: equal to the summary after the history [contest level] alone, never raises, wrong size raises the dedicated "
     "error. (a2) BFS to depth D over operations agg(level) applied directly to the model after a contest-level run; the summary is evaluated in every "
     "reached state. (b) real get_national_summary_estimates with injected registers: 2 contests (thorough 3), B=2, per contest draws in "
     "{(-.1,-.1),(-.1,.1),(.1,.1),(.001,-.001)}^2, point margin in {-.1,-.001,.001,.1} consistent with its call, weights {1,3}, base {0,10}, six call/stop "
@@ -139,13 +139,19 @@ def _summaries(client, viol, ctx, cov, third=False):
             out.append(E.table_to_obj(tab)["rows"])
         except Exception as e:
             out.append(f"raised {type(e).__name__}: {str(e)[:120]}")
-    try:
-        client.get_national_summary_votes_estimates({"AA": 1, "BB": 1, "CC": 1, "DD": 1} if third else {"AA": 1, "BB": 1, "CC": 1}, 0, [0.9])
-        viol("wrong-size-weights-accepted", f"{ctx}: a weight dictionary with one entry too many was accepted")
-    except BootstrapElectionModelException:
-        cov["wrong_size_rejected"] += 1
-    except Exception as e:
-        viol("wrong-size-weights-wrong-error", f"{ctx}: wrong-size weights raised {type(e).__name__}: {str(e)[:150]}")
+    n = 3 if third else 2
+    names = ["AA", "BB", "CC", "DD"]
+    for size in range(0, n + 2):  # every dictionary size from empty to one entry too many, except the right one
+        if size == n:
+            continue
+        try:
+            client.get_national_summary_votes_estimates({c: 1 for c in names[:size]}, 0, [0.9])
+            viol("wrong-size-weights-accepted", f"{ctx}: a weight dictionary with {size} entries for {n} contests was accepted")
+        except BootstrapElectionModelException:
+            cov["wrong_size_rejected"] += 1
+            cov[f"wrong_size_{'empty' if size == 0 else 'short' if size < n else 'long'}_rejected"] += 1
+        except Exception as e:
+            viol("wrong-size-weights-wrong-error", f"{ctx}: a weight dictionary with {size} entries for {n} contests raised {type(e).__name__}: {str(e)[:150]}")
     return out
 
 
@@ -435,4 +441,4 @@ def evaluate(case):
     return dict({"violations": V, "cov": dict(cov), "outcome": sha([v["sig"] for v in V] + [case["kind"]]), "nontrivial": nontrivial, "transitions": max(1, runs)}, **extra)
 
 
-REQUIRED_COUNTERS = {"client_histories": 100, "bfs_states": 4, "seam_executions": 50000, "wrong_size_rejected": 100, "called_contest_draw_groups": 1000, "passthrough_only_contest_runs": 20, "district_office_histories_with_calls": 20, "exactly_tied_contests": 10}
+REQUIRED_COUNTERS = {"client_histories": 100, "bfs_states": 4, "seam_executions": 50000, "wrong_size_rejected": 100, "wrong_size_empty_rejected": 50, "called_contest_draw_groups": 1000, "passthrough_only_contest_runs": 20, "district_office_histories_with_calls": 20, "exactly_tied_contests": 10}
